@@ -8,11 +8,12 @@ THEOREMS = ["UrcuVerif.Handshake.no_lost_wakeup", "UrcuVerif.Handshake.gp_futex_
             "UrcuVerif.Handshake.lost_wakeup_without_fences", "UrcuVerif.Handshake.inv_step",
             "UrcuVerif.WaitNode.waiter_teardown_safe", "UrcuVerif.WaitNode.waiter_no_lost_wakeup",
             "UrcuVerif.WaitNode.inv_step",
-            "UrcuVerif.QsbrHs.qsbr_no_lost_wakeup", "UrcuVerif.QsbrHs.qsbr_armed_visible", "UrcuVerif.QsbrHs.inv_step"]
+            "UrcuVerif.QsbrHs.qsbr_no_lost_wakeup", "UrcuVerif.QsbrHs.qsbr_armed_visible", "UrcuVerif.QsbrHs.inv_step",
+            "UrcuVerif.Locks.lock_order_deadlock_free", "UrcuVerif.Locks.lock_mutual_exclusion", "UrcuVerif.Locks.inv_step"]
 TRUSTED = ["Lean 4.33 kernel; axioms ⊆ {propext, Classical.choice, Quot.sound}",
            "x86-TSO machine; futex contract (FUTEX_WAIT checks the value and sleeps atomically; spurious/EINTR returns unconstrained; system calls drain the store buffer); sys_membarrier = forced fence",
            "liveness is proved as 'sleeper always has a non-stuck waker with a strictly decreasing own-step measure'; 'eventually returns' additionally needs a fair scheduler",
-           "lock-order deadlock freedom (rcu_gp_lock → rcu_registry_lock) is checked by the runtime's deadlock detector on explored schedules, not proved",
+           "lock-order deadlock freedom (rcu_gp_lock → rcu_registry_lock) is a theorem on the abstract lock discipline (Gp/Locks.lean: wait chains of length ≤ 2 ending in an enabled thread); that the real code follows this discipline is checked by the trace tie (LOCK/UNLOCK events in order) and the runtime's deadlock detector on explored schedules; bp's init_lock and the call_rcu/defer mutexes are outside this model",
            "tie: Driver/Gp.lean event-level replay of the real wait_for_readers/wait_gp/wake_up_gp/urcu-wait.h under the shim (explored schedules only); qsbr's two-level waiting-flag handshake has its own TSO model and theorem (Handshake/QsbrTso.lean); bp has no futex (poll loop), covered by the trace tie and the budget detector"]
 OWN = {"DEADLOCK", "BUDGET", "SELFLOCK", "BADUNLOCK"}
 
@@ -21,7 +22,7 @@ def run(chk):
     chk.assumptions = TRUSTED
     chk.cov["trusted_base"] = TRUSTED
     chk.proof_part(["UrcuVerif.Props.C02", "drv_gp"], "UrcuVerif.Props.C02", THEOREMS,
-                   ["UrcuVerif.Handshake", "UrcuVerif.Props.C02", "UrcuVerif.Machine"])
+                   ["UrcuVerif.Handshake", "UrcuVerif.Gp.Locks", "UrcuVerif.Props.C02", "UrcuVerif.Machine"])
     ok, log = gp_common.build()
     if not ok:
         chk.fail("build", {"theorem": "harness/scen/gp.c does not compile against /repo", "lean_error": log[-2000:]}, nofail=True)
